@@ -96,6 +96,16 @@ theorem allConsts_gl {l : List Val} {cs : List Const} (h : allConsts l = some cs
       simp only [gl, List.map_cons, gv]
       rw [show List.map (gv τ) r = cs' from ih h1]
 
+/-- every grounding of `ctx'` is a grounding of `ctx` (`ctx'` is `ctx` with more variables bound) -/
+def Refines (ctx ctx' : Ctx) : Prop := ∀ τ', ∃ τ, gl τ ctx = gl τ' ctx'
+
+theorem Refines.refl (ctx : Ctx) : Refines ctx ctx := fun τ => ⟨τ, rfl⟩
+
+theorem Refines.trans {a b c : Ctx} (h1 : Refines a b) (h2 : Refines b c) : Refines a c := fun τ'' => by
+  obtain ⟨τ', h'⟩ := h2 τ''
+  obtain ⟨τ, h⟩ := h1 τ'
+  exact ⟨τ, h.trans h'⟩
+
 /-! ### the unification facts the semantic layer needs (proved in `GroundFOUnify.lean`) -/
 
 structure UnifOK : Prop where
